@@ -30,6 +30,7 @@ func init() {
 			{ID: "C06.8", Desc: "the evaluator receives the judged response's directives and the request's directives on every path", Run: func(c *Ctx) { ruleEvaluatorDirectives(c, "C06.8") }, MinSites: 2},
 			{ID: "C06.10", Desc: "the 304 write-back is skipped when the request or the 304 carries no-store", Run: ruleC06_10, MinSites: 1},
 			{ID: "C06.9", Desc: "storability depends on the request only through no-store", Run: func(c *Ctx) { ruleEvaluatorRequestDirectives(c, "C06.9") }, MinSites: 1},
+			{ID: "C06.11", Desc: "no-store is not hidden by a backslash outside a quoted-string", Run: func(c *Ctx) { ruleEscapeOnlyInQuotes(c, "C06.11") }, MinSites: 1},
 		},
 	})
 }
